@@ -1349,8 +1349,8 @@ func fileNameIsRelByPathRules(c *Ctx, rule string) {
 			// provenance of the argument through local assignments
 			seen := map[types.Object]bool{}
 			viaRel, surgery := false, ""
-			var walk func(e ast.Expr)
-			walk = func(e ast.Expr) {
+			var walk func(e ast.Expr, in *ast.FuncDecl, depth int)
+			walk = func(e ast.Expr, in *ast.FuncDecl, depth int) {
 				ast.Inspect(e, func(y ast.Node) bool {
 					switch y := y.(type) {
 					case *ast.CallExpr:
@@ -1362,6 +1362,25 @@ func fileNameIsRelByPathRules(c *Ctx, rule string) {
 							case "strings.TrimPrefix", "strings.CutPrefix", "strings.Replace", "strings.ReplaceAll", "strings.TrimLeft":
 								surgery = fullName(cf)
 							}
+							// a helper of the package that computes the name: what it returns
+							if cf.Pkg() == p.Types && depth < 3 {
+								for _, cfd := range allFuncDecls(p) {
+									if info.Defs[cfd.Name] != types.Object(cf) || cfd.Body == nil {
+										continue
+									}
+									ast.Inspect(cfd.Body, func(z ast.Node) bool {
+										if _, isLit := z.(*ast.FuncLit); isLit {
+											return false
+										}
+										if ret, ok := z.(*ast.ReturnStmt); ok && len(ret.Results) > 0 {
+											if t := info.TypeOf(ret.Results[0]); t != nil && isStringType(t) {
+												walk(ret.Results[0], cfd, depth+1)
+											}
+										}
+										return true
+									})
+								}
+							}
 						}
 					case *ast.SliceExpr:
 						surgery = "a slice expression"
@@ -1369,14 +1388,14 @@ func fileNameIsRelByPathRules(c *Ctx, rule string) {
 						ob := info.ObjectOf(y)
 						if v, ok := ob.(*types.Var); ok && !v.IsField() && !seen[ob] {
 							seen[ob] = true
-							ast.Inspect(fd.Body, func(z ast.Node) bool {
+							ast.Inspect(in.Body, func(z ast.Node) bool {
 								if as, ok := z.(*ast.AssignStmt); ok {
 									for i, l := range as.Lhs {
 										if lid, ok := l.(*ast.Ident); ok && info.ObjectOf(lid) == ob {
 											if len(as.Rhs) == len(as.Lhs) {
-												walk(as.Rhs[i])
+												walk(as.Rhs[i], in, depth)
 											} else {
-												walk(as.Rhs[0])
+												walk(as.Rhs[0], in, depth)
 											}
 										}
 									}
@@ -1388,7 +1407,7 @@ func fileNameIsRelByPathRules(c *Ctx, rule string) {
 					return true
 				})
 			}
-			walk(call.Args[0])
+			walk(call.Args[0], fd, 0)
 			why := ""
 			if surgery != "" {
 				why = "it is cut out of the path with " + surgery
